@@ -481,7 +481,7 @@ static void expire_deadlines () {
 		Fibre *f = &g.fib[i];
 		if ((f->st == F_FUTEX || f->st == F_PCOND || f->st == F_SLEEP) && f->has_deadline && f->deadline <= g.now) {
 			TRACE ("timer fires for t%d (deadline %lld)", f->tid, (long long) (f->deadline - g.start));
-			f->op_last_timer_wake_ns = g.now;
+			if (f->st != F_SLEEP) f->op_last_timer_wake_ns = g.now;      // the timer of a wait, not the end of a plain sleep (back-off)
 			wake (f, ETIMEDOUT);
 		}
 	}
